@@ -74,6 +74,28 @@ def chain_scripts(quick):
                             sc += [{'op': 'get', 'var': 'w', 'attr': 'user_state', 'tag': 'state-after-restart%d' % r}]
                     sc += [{'op': 'call', 'var': 'w', 'method': 'terminate', 'args': [5]}]
                     out.append({'script': sc, 'kind': kind, 'init': init, 'part': 'restart-chain', 'how': how, 'restarts': nrestart})
+            # restart of a worker which is already dead, with nothing read from it between its death and the restart
+            for how in ('waited', 'crashed', 'terminated'):
+                for nrestart in ((1, 2) if quick else (1, 2, 3)):
+                    sc = [{'op': 'create', 'var': 'w', 'kind': kind, 'wcls': 'State', 'target': 't_ret_now', 'init_state': init, 'kwargs': {'m': 1}}]
+                    for r in range(nrestart):
+                        if how == 'waited':
+                            sc += [{'op': 'call', 'var': 'w', 'method': 'enqueue', 'args': []},
+                                   {'op': 'call', 'var': 'w', 'method': 'next_result', 'tag': 'saw%d' % r, 'timeout': 8},
+                                   {'op': 'call', 'var': 'w', 'method': 'wait', 'args': [10], 'tag': 'ended%d' % r}]
+                        elif how == 'crashed':
+                            sc += [{'op': 'call', 'var': 'w', 'method': 'enqueue', 'args': [], 'kwargs': {'ending': 'raise'}},
+                                   {'op': 'child_dead', 'var': 'w', 'kind': kind, 'within': 8, 'tag': 'ended%d' % r}]
+                        else:
+                            sc += [{'op': 'call', 'var': 'w', 'method': 'enqueue', 'args': [], 'kwargs': {'ending': 'spin'}},
+                                   {'op': 'sleep', 's': 0.25},
+                                   {'op': 'call', 'var': 'w', 'method': 'terminate', 'args': [5], 'tag': 'ended%d' % r}]
+                        sc += [{'op': 'call', 'var': 'w', 'method': 'restart', 'timeout': 20},
+                               {'op': 'get', 'var': 'w', 'attr': 'user_state', 'tag': 'state-after-restart%d' % r}]
+                    sc += [{'op': 'call', 'var': 'w', 'method': 'enqueue', 'args': []},
+                           {'op': 'call', 'var': 'w', 'method': 'next_result', 'tag': 'saw-last', 'timeout': 8},
+                           {'op': 'call', 'var': 'w', 'method': 'terminate', 'args': [5]}]
+                    out.append({'script': sc, 'kind': kind, 'init': init, 'part': 'dead-restart-chain', 'how': how, 'restarts': nrestart})
     return out
 
 
@@ -149,6 +171,22 @@ def judge_chain(case, obs):
             if t['state%d' % i].get('ret') != prev:
                 bad.append(('state-not-synchronised', t['state%d' % i]))
                 break
+    elif case['part'] == 'dead-restart-chain':
+        prev = case['init']
+        for r in range(case['restarts']):
+            if t['ended%d' % r].get('ret') is not True:
+                return [('harness', t['ended%d' % r])]
+            if case['how'] == 'waited' and t['saw%d' % r].get('ret') != ['saw', prev]:
+                bad.append(('incarnation-%d-did-not-start-from-last-synchronised-state' % r, {'saw': t['saw%d' % r].get('ret'), 'expected': prev}))
+                break
+            prev = ['assigned', 1]
+            st = t['state-after-restart%d' % r]
+            if st.get('ret') != prev:
+                bad.append(('state-lost-by-restart-of-dead-worker-%s' % case['how'], {'got': st, 'expected': prev}))
+                break
+        else:
+            if t['saw-last'].get('ret') != ['saw', prev]:
+                bad.append(('incarnation-after-dead-restart-did-not-start-from-last-synchronised-state', {'saw': t['saw-last'].get('ret'), 'expected': prev}))
     else:
         prev = case['init']
         for r in range(case['restarts'] + 1):
